@@ -70,6 +70,13 @@ def stratified(rng, hists, budget):
     return out, len(groups)
 
 
+def soften(results):
+    """a case the watchdog gave up on is an infrastructure problem (exit 2), never a violation"""
+    for r in results:
+        if r.get('kind') == 'hang':
+            r['kind'] = 'infra'
+
+
 def cfg_maxops(ctx, name):
     with open(os.path.join(ctx.spec_dir, name)) as f:
         return int(re.search(r'MaxOps = (\d+)', f.read()).group(1))
@@ -78,68 +85,114 @@ def cfg_maxops(ctx, name):
 def run(ctx):
     tier = ctx.tier
     quick = tier == 'quick'
-    # 1. the repaired design satisfies the contract (and the contract is satisfiable at all)
-    r = ctx.tlc_must_pass('FieldSet', f'FieldSet.MC_{tier}.cfg', workers=8, timeout=1700, coverage=True, heap='6g')
-    ctx.check_coverage(r, ACTIONS)
+    import threading
+    out = {}
+
+    def job(name, fn):
+        def w():
+            try:
+                out[name] = fn()
+            except Exception as e:  # noqa
+                out[name] = e
+        t = threading.Thread(target=w)
+        t.start()
+        t.join()      # one TLC at a time (shared machine)
+        return t
+
+    lead_cfgs = ['FieldSet.LeadDrop.cfg', 'FieldSet.LeadRace.cfg'] + ([] if quick else ['FieldSet.LeadReplay.cfg'])
+    nsim1, nsim2 = (400, 300) if quick else (6000, 6000)
+    ths = [
+        # 1. the repaired design satisfies the contract (and the contract is satisfiable at all)
+        job('mc', lambda: ctx.tlc('FieldSet', f'FieldSet.MC_{tier}.cfg', workers=min(4, vlib.NCPU), timeout=2400, coverage=True, heap='5g', tag='mc', count=False)),
+        # 3b. longer histories of the code-as-it-is model by simulation: one writer, two writers
+        job('sim1', lambda: ctx.tlc('FieldSet', 'FieldSet.Sim1.cfg', workers=1, timeout=2400, simulate={'num': nsim1}, depth=40, heap='2g', tag='sim1', count=False)),
+        job('sim2', lambda: ctx.tlc('FieldSet', 'FieldSet.Sim2.cfg', workers=1, timeout=2400, simulate={'num': nsim2}, depth=45, heap='2g', tag='sim2', count=False)),
+    ]
     # 2. leads on the model of the code as it is (a model-only violation is a lead; the replay below decides)
+    for cfg in lead_cfgs:
+        ths.append(job(cfg, (lambda c: lambda: ctx.tlc('FieldSet', c, workers=min(4, vlib.NCPU), timeout=2400, heap='4g', tag=c.split('.')[1], count=False))(cfg)))
+    if not quick:
+        # 3a. every history of the code-as-it-is model up to the bound
+        ths.append(job('gen', lambda: ctx.tlc('FieldSet', 'FieldSet.Gen1_thorough.cfg', workers=min(4, vlib.NCPU), timeout=2400, dump=True, heap='6g', tag='gen', count=False)))
+    for t in ths:
+        t.join()
+    for k, v in out.items():
+        if isinstance(v, Exception):
+            raise vlib.Inconclusive(f'TLC run {k} failed: {v}')
+        ctx.states += v.distinct
+        ctx.transitions += v.generated
+    r = out['mc']
+    if r.timed_out or not r.ok:
+        raise vlib.Inconclusive(f'design check did not pass: violated={r.violated}\n' + r.stdout[-1500:])
+    ctx.check_coverage(r, ACTIONS)
     leads = {}
-    lead_cfgs = ['FieldSet.LeadDrop.cfg'] if quick else ['FieldSet.LeadDrop.cfg', 'FieldSet.LeadReplay.cfg', 'FieldSet.LeadRace.cfg']
     lead_cases = []
     for cfg in lead_cfgs:
-        lr = ctx.tlc('FieldSet', cfg, workers=8, timeout=1700, heap='6g')
-        if lr.timed_out:
-            leads[cfg] = 'timeout'
-            continue
-        leads[cfg] = lr.violated or ('none' if lr.ok else 'error')
-        if lr.violated and lr.trace:
+        lr = out[cfg]
+        leads[cfg] = 'timeout' if lr.timed_out else (lr.violated or ('none' if lr.ok else 'error'))
+        if lr.violated:
             try:
-                last = tlaval.plain(lr.trace[-1][1])
+                blocks = re.split(r'\nState \d+: [^\n]*\n', lr.stdout)
+                last = tlaval.plain(tlaval.parse_state_body(blocks[-1].split('\n\n')[0]))
                 lead_cases.append({'mode': 'hist', 'steps': last['hist'], 'boundaryImages': False, 'lead': cfg})
-            except Exception:  # noqa
-                pass
-    # 3. histories of the code-as-it-is model
-    g = ctx.tlc_must_pass('FieldSet', f'FieldSet.Gen1_{tier}.cfg', workers=8, timeout=1700, dump=True, heap='6g')
-    hists = list(terminal_hists(g.dump_path, cfg_maxops(ctx, f'FieldSet.Gen1_{tier}.cfg')))
-    if not hists:
-        raise vlib.Inconclusive('no terminal histories in the dump')
-    budget = 260 if quick else 6000
-    chosen, nclasses = stratified(ctx.rng, hists, budget)
-    cases = [{'mode': 'hist', 'steps': h, 'boundaryImages': True} for h in chosen]
-    # two writers / longer histories by simulation (stopped histories are replayed as far as they go)
-    nsim = 120 if quick else 3000
-    sim = ctx.tlc('FieldSet', 'FieldSet.Sim.cfg', workers=4, timeout=900, simulate={'num': nsim}, depth=40, heap='3g')
-    nsimc = 0
-    if sim.ok:
+            except Exception as e:  # noqa
+                leads[cfg] += ' (trace not parsed: %s)' % e
+    cases = []
+    hists, chosen, nclasses = [], [], 0
+    if not quick:
+        g = out['gen']
+        if g.timed_out or not g.ok:
+            raise vlib.Inconclusive('generation run failed: ' + g.stdout[-800:])
+        hists = list(terminal_hists(g.dump_path, cfg_maxops(ctx, 'FieldSet.Gen1_thorough.cfg')))
+        if not hists:
+            raise vlib.Inconclusive('no terminal histories in the dump')
+        chosen, nclasses = stratified(ctx.rng, hists, 9000)
+        cases += [{'mode': 'hist', 'steps': h, 'boundaryImages': True} for h in chosen]
+    nsimc = {}
+    for name, budget, images in (('sim1', 170 if quick else 2500, True), ('sim2', 110 if quick else 2500, False)):
+        sim = out[name]
+        if not sim.ok:
+            raise vlib.Inconclusive(f'simulation run {name} failed: ' + sim.stdout[-800:])
+        hs = []
+        seen = set()
         for b in ctx.sim_behaviours(sim):
             h = b[-1]['hist']
-            if len(h) >= 4:
-                cases.append({'mode': 'hist', 'steps': h, 'boundaryImages': False})
-                nsimc += 1
-    else:
-        raise vlib.Inconclusive('simulation run failed: ' + sim.stdout[-800:])
+            key = json.dumps(h, sort_keys=True)
+            if len(h) >= 4 and key not in seen:
+                seen.add(key)
+                hs.append(h)
+        sel, ncl = stratified(ctx.rng, hs, budget)
+        nsimc[name] = {'behaviours': len(hs), 'replayed': len(sel), 'classes': ncl}
+        cases += [{'mode': 'hist', 'steps': h, 'boundaryImages': images} for h in sel]
+    if not cases:
+        raise vlib.Inconclusive('no histories generated')
     binary = ctx.go_build('fieldset')
-    res, lines = ctx.replay(binary, cases + lead_cases, procs=14, par=1, timeout=2400, case_timeout='300s', args={'conc': ctx.seed})
+    res, lines = ctx.replay(binary, cases + lead_cases, procs=vlib.NCPU, par=1, timeout=6000, case_timeout='1500s', args={'conc': ctx.seed})
+    soften(res)
     ctx.absorb(res, lines)
     if not quick:
-        res2, lines2 = ctx.replay(binary, cases[:2000], procs=14, par=1, timeout=2400, case_timeout='300s', args={'conc': ctx.seed + 3})
+        res2, lines2 = ctx.replay(binary, cases[:3000], procs=vlib.NCPU, par=1, timeout=6000, case_timeout='1500s', args={'conc': ctx.seed + 3})
+        soften(res2)
         ctx.absorb(res2, lines2)
     # were the model leads reproduced on the real code?
     repro = {}
     for rr in res[len(cases):]:
         c = lead_cases[rr['id'] - len(cases)]
         repro[c['lead']] = 'reproduced' if (not rr.get('ok') and rr.get('kind') == 'violation') else ('not reproduced' if rr.get('ok') else rr.get('kind'))
-    ctx.exhaustive = (len(chosen) == len(hists))
+    ctx.exhaustive = (not quick) and len(chosen) == len(hists)
     ctx.extra_cov['terminal_histories_total'] = len(hists)
     ctx.extra_cov['terminal_histories_replayed'] = len(chosen)
     ctx.extra_cov['history_classes'] = nclasses
-    ctx.extra_cov['simulated_histories_replayed'] = nsimc
+    ctx.extra_cov['simulated_histories'] = nsimc
     ctx.extra_cov['model_leads'] = leads
     ctx.extra_cov['model_leads_on_real_code'] = repro
-    ctx.rule = ('terminal histories of FieldSet.Gen1 (all operation sequences of MaxOps operations over write(16 single-point '
-                'batches)/drop/close/crash with every crash position between micro-steps), sampled evenly over classes '
-                '(drop?, crash?, close?, rejected point?, number of writes) when above budget, plus simulated two-writer '
-                'histories; every step is forced through the schedule points; after every quiescent step a crash image is '
-                'opened and compared; non-trivial = history with a crash, a drop or a rejected point')
+    ctx.rule = ('histories of the code-as-it-is model: (thorough) every terminal history of FieldSet.Gen1 (all sequences of MaxOps '
+                'operations over write(16 single-point batches)/drop/close/crash with every crash position between micro-steps); '
+                'simulated histories with one writer (<= 5 operations) and two interleaved writers (<= 7 operations), sampled '
+                'evenly over classes (drop?, crash?, close?, rejected point?, number of writes); every micro-step is forced '
+                'through the schedule points; crash images at the crash points TLC chose, after every quiescent step '
+                '(one-writer histories) and at every byte prefix of an interrupted fields.idxl append; '
+                'non-trivial = history with a crash, a drop or a rejected point')
     ctx.assumptions += [
         'process-crash model: completed writes (O_SYNC appends, renames) are stable; an interrupted append persists as a byte prefix',
         'DropMeasurement runs while no write is in flight; a dropped measurement has data (otherwise the engine finds nothing to drop)',
